@@ -360,6 +360,49 @@ def w_cli(case):
     return res
 
 
+def w_nofile(case):
+    """descriptor exhaustion (RLIMIT_NOFILE = n): every open the tool makes fails at some n; it must still end cleanly"""
+    res = mkres()
+    try:
+        d = run.fresh_dir('c07')
+        os.makedirs(os.path.join(d, 'out'))
+        b = bases()
+        dfsrun.write(d, 'v.ssd', b['ssd'])
+        dfsrun.write(d, 'v.ssd.gz', images.gz(b['ssd']))
+        dfsrun.write(d, 'v.hfe.gz', images.gz(images.valid_images()['hfe']))
+        dfsrun.write(d, 'v.mmb', b['mmb'])
+        for argv in case['argvs']:
+            for n in case['limits']:
+                r = run.run_limited([build.exe('plain', 'dfs')] + argv, cwd=d, timeout=TIMEOUT, env={'RUNNER_NOFILE': str(n)})
+                res['n'] += 1
+                if r.exit == 127 and b'shared libr' in r.err:
+                    bump(res, 'loader-could-not-start')
+                    continue
+                v = verdict(r, 'plain')
+                if v:
+                    bump(res, v[0].split(':')[0])
+                    res['viol'].append(('C07:descriptor-limit:%s' % v[0], 'RLIMIT_NOFILE=%d argv=%r: %s %s' % (n, argv, v[0], v[1][-300:])))
+                else:
+                    bump(res, r.status())
+                res['nt'].append((n, tuple(argv)))
+        if res['viol']:
+            res['case'] = case
+    except Exception:
+        import traceback
+        res['viol'].append(('HARNESS', traceback.format_exc()))
+        res['case'] = case
+    return res
+
+
+def fam_nofile(tier):
+    """RLIMIT_NOFILE = 3..12 x configurations of 1..5 plain/.gz/flux images x commands (incl. the extract commands, which open output files)"""
+    cfgs = [['--file', 'v.ssd'], ['--file', 'v.ssd.gz'], ['--file', 'v.ssd', '--file', 'v.ssd.gz'], ['--file', 'v.ssd.gz', '--file', 'v.hfe.gz'],
+            ['--file', 'v.ssd'] * 5, ['--file', 'v.ssd.gz'] * 5, ['--file', 'v.mmb'], ['--file', 'v.hfe.gz']]
+    cmds = [['cat'], ['info', '*'], ['type', 'HELLO'], ['extract-files', 'out'], ['extract-unused', 'out'], ['show-titles'], ['--help']]
+    for cfg in cfgs:
+        yield {'w': 'nofile', 'argvs': [cfg + c for c in cmds], 'limits': list(range(3, 13))}
+
+
 def fam_cli(tier):
     """every command x 0..3 arguments from a hostile set x global options, against valid / MMB(unformatted) / Opus / empty configurations"""
     configs = [['--file', 'v.ssd'], ['--file', 'v.mmb'], ['--file', 'o.sdd'], []]
@@ -513,10 +556,10 @@ def fam_fluxstruct(tier):
 
 
 def worker(case):
-    return {'file': w_file, 'cli': w_cli, 'fluxstruct': w_fluxstruct}[case['w']](case)
+    return {'file': w_file, 'cli': w_cli, 'fluxstruct': w_fluxstruct, 'nofile': w_nofile}[case['w']](case)
 
 
-FAMILIES = [('N-number-parsing-boundaries', fam_numbers), ('F-flux-structure', fam_fluxstruct), ('X-cross-extension', fam_cross), ('C-command-lines', fam_cli), ('S-short-files', fam_short),
+FAMILIES = [('R-descriptor-exhaustion', fam_nofile), ('N-number-parsing-boundaries', fam_numbers), ('F-flux-structure', fam_fluxstruct), ('X-cross-extension', fam_cross), ('C-command-lines', fam_cli), ('S-short-files', fam_short),
             ('T-truncation', fam_trunc), ('B-structural-bytes', fam_poke)]
 
 
